@@ -1,5 +1,6 @@
 import ASV.Drv.J
 import ASV.Spec.Parallel
+import ASV.Model.Ids
 namespace ASV.Drv.C18
 open Lean ASV ASV.Drv ASV.Parallel
 
@@ -18,11 +19,14 @@ def execOfJson (j : Json) : R (ExecResult String) := do
   | "err" => return .failed (← asStr (← idx j 1))
   | t => throw s!"unknown exec outcome {t}"
 
-def eventOfJson (j : Json) : R Event := do
+/-- `["exit", p]` = child process `p` of the caller seen dead; attributed to the pool (or not) by
+    the model's `classifyExit` from the children before / after the pool was created -/
+def eventOfJson (before after : List Nat) (j : Json) : R Event := do
   match (← asStr (← idx j 0)) with
   | "done" => return .done (← asNat (← idx j 1))
   | "timeout" => return .timeout
   | "died" => return .died (← asNat (← idx j 1))
+  | "exit" => return classifyExit before after (← asNat (← idx j 1))
   | t => throw s!"unknown event {t}"
 
 def outcomeToJson : Outcome String Int → Json
@@ -50,12 +54,43 @@ def outcomeOfJson (j : Json) : R (Outcome String Int) := do
 /-- the exception `child_process` turns a `KeyboardInterrupt` into -/
 def interrupt : String := "RuntimeError:Killed by keyboard interrupt"
 
+def asChars (j : Json) : R Ids.Str := do return (← asStr j).toList
+def jS (s : Ids.Str) : Json := Json.str (String.ofList s)
+def recToJson (r : Ids.Rec) : Json :=
+  jArr [jS r.id, jS r.name, match r.orig with | none => Json.null | some o => jS o]
+
+/-- identifiers through the clean-up stage of `pre_process_sequences`: the model threads the id set
+    in the parent (C16's `preProcessIds`); `shipped` is what comes out if a copy of the set travels
+    with every task batch instead (`parallelFunctionShipped`, batches in index order) -/
+def handlePrepIds (j : Json) : R Json := do
+  let allowLong ← boolF j "allow_long"
+  let cpus ← natF j "cpus"
+  let inp ← listOf (fun p => do return ((← asChars (← idx p 0)), (← asChars (← idx p 1)))) (← fld j "recs")
+  let model := match Ids.preProcessIds allowLong inp with
+    | .ok recs => jObj [("recs", jArr (recs.map recToJson))]
+    | .error _ => jObj [("err", Json.str "task")]
+  let shipped : Json := match Ids.uniquePass (Ids.mkRecs 1 inp) with
+    | .error _ => Json.null
+    | .ok (recs1, taken) =>
+      let g := fun (t : List Ids.Str) (r : Ids.Rec) =>
+        match Ids.fixRecordNameId allowLong t r with
+        | .error e => (Except.error e : Except Ids.Err (List Ids.Str × Ids.Rec))
+        | .ok (r', t') => .ok (t', r')
+      let m := numChunks recs1.length cpus
+      match parallelFunctionShipped 1 g taken recs1 cpus false ((List.range m).map Event.done) with
+      | .returned l => jArr (l.filterMap fun x => x.map recToJson)
+      | _ => Json.null
+  return jObj [("model", model), ("shipped", shipped), ("scope", toJson true)]
+
 def handle (j : Json) : R Json := do
   let kind ← strF j "kind"
+  if kind == "prep_ids" then return ← handlePrepIds j
   let cpus ← natF j "cpus"
   let cfg ← natF j "config_cpus"
   let ht ← boolF j "timeout"
-  let evs ← listOf eventOfJson (← fld j "events")
+  let before := (listOf asNat (fldD j "before" (jArr []))).toOption.getD []
+  let after := (listOf asNat (fldD j "after" (jArr []))).toOption.getD []
+  let evs ← listOf (eventOfJson before after) (← fld j "events")
   let impl? : Option (Outcome String Int) ←
     match j.getObjVal? "impl" with
     | .ok x => do pure (some (← outcomeOfJson x))
